@@ -28,7 +28,11 @@ def _alto(case):
     line = L.TextLine(id='l1', baseline=np.array([[g['lx0'], g['by']], [g['lx1'], g['by']]]),
                       polygon=np.array([[g['lx0'], g['ly0']], [g['lx1'], g['ly0']], [g['lx1'], g['ly1']], [g['lx0'], g['ly1']]]),
                       heights=[_f(case['heights'][0]), _f(case['heights'][1])], transcription=text)
+    npre = case.get('pre', 0)
+    CHARSET = ['a', '.', 'ب', '<blank>'] if npre else globals()['CHARSET']
     line.characters = list(CHARSET)
+    if npre:
+        reg.lines.append(L.TextLine(id='l0', baseline=line.baseline, polygon=line.polygon, heights=list(line.heights), transcription='ب'))
     if lmode != 'absent':
         line.logits = scipy.sparse.csc_matrix(np.full((F, len(CHARSET)), -1.0))
         line.logit_coords = [None, None] if lmode == 'nocoords' else [0, F]
@@ -51,7 +55,8 @@ def _alto(case):
             return np.arange(16 * W * 2, dtype=float).reshape(16, W, 2) * 0.37 + 3.0
     saved = (L.align_text, L.get_line_confidence, L.EngineLineCropper)
     L.align_text = align_text
-    L.get_line_confidence = lambda line_, labels, aligned, logprobs: np.array(conf[:len(labels)])
+    if case.get('glc') != 'real':
+        L.get_line_confidence = lambda line_, labels, aligned, logprobs: np.array(conf[:len(labels)])
     L.EngineLineCropper = Cropper
     try:
         with warnings.catch_warnings():
@@ -66,6 +71,11 @@ def _alto(case):
     contents = [html.unescape(c) for c in contents]
     nlines = len(re.findall(r'<TextLine ', s))
     bad = []
+    if npre:
+        if nlines < 1 or contents[:1] != ['ب']:
+            return contents, ['the preceding Arabic line is not exported with its word']
+        nlines -= 1
+        contents = contents[1:]
     words = text.split()
     nonblank = bool(text) and text.strip() != ''
     lc = line.transcription_confidence
@@ -91,7 +101,7 @@ def _alto(case):
     for m in re.finditer(r' WC="([^"]*)"', s):
         if not (0 <= float(m.group(1)) <= 1):
             bad.append('WC=%s outside [0,1]' % m.group(1))
-    l2 = [ln for r in L2.regions for ln in r.lines]
+    l2 = [ln for r in L2.regions for ln in r.lines][npre:]
     if not bad and (len(l2) != 1 or l2[0].transcription != ' '.join(exp)):
         bad.append('re-import gives %r' % ([ln.transcription for ln in l2],))
     return contents, bad
